@@ -93,6 +93,9 @@ CallE(p) ==
   /\ On("C01") => (call[p].doomed => (call[p].ncb = 0 /\ call[p].ndrop >= 1))
   \* for a plain observable every notification is either delivered or reported as dropped
   /\ On("C01") => ((kind = "obs") => (call[p].ncb + call[p].ndrop >= 1))
+  \* C07: an error emitted by the source reaches the subscriber: it may only go undelivered when the stream was already
+  \* terminated by another notification or unsubscribed (never because the producer lock happened to be busy)
+  /\ On("C07") => ((kind = "obs" /\ call[p].k = "E" /\ call[p].ncb = 0) => \E o \in O : termB[o] \/ unsB[o])
   \* C06: a notification issued after Unsubscribe returned is not delivered (it is dropped)
   /\ On("C06") => (call[p].cut => call[p].ncb = 0)
   /\ call' = [call EXCEPT ![p] = NoCall]
